@@ -91,6 +91,8 @@ func genTable(conc bool) func(r *prng) *plan {
 			default:
 				if r.chance(30) {
 					p.Ops = append(p.Ops, opSpec{K: "refresh"})
+				} else if conc && r.chance(50) {
+					p.Ops = append(p.Ops, opSpec{K: "collect", N: []int64{int64(r.intn(17)), int64(r.intn(2))}})
 				} else {
 					p.Ops = append(p.Ops, opSpec{K: "addself"})
 				}
@@ -131,11 +133,14 @@ func genTable(conc bool) func(r *prng) *plan {
 				p.Ops = append(p.Ops, opSpec{K: "par", N: []int64{int64(n), int64(1 + r.intn(1<<30))}}, opSpec{K: "track", N: []int64{x, 0}})
 				for k := 1; k < n; k++ {
 					y := int64(base + r.intn(per))
-					switch r.intn(4) {
+					switch r.intn(6) {
 					case 0:
 						p.Ops = append(p.Ops, opSpec{K: "delete", N: []int64{y}})
 					case 1, 2:
 						p.Ops = append(p.Ops, opSpec{K: "refresh"})
+					case 4, 5:
+						// a FINDNODES request for the story's bucket (log-distance 256) arrives at the same time
+						p.Ops = append(p.Ops, opSpec{K: "collect", N: []int64{16, int64(r.intn(2))}})
 					default:
 						p.Ops = append(p.Ops, opSpec{K: "addinbound", N: []int64{y, int64(r.intn(4))}})
 					}
@@ -702,6 +707,19 @@ func (ts *tableSim) exec(op opSpec) opRet {
 		<-ts.tab.VerifRefresh()
 		w.op("refresh")
 		w.abstract("refresh")
+		return opRet{}
+	case "collect":
+		// what the FINDNODES handler does for one requested distance (it runs on the request's own goroutine,
+		// beside the table loop)
+		d := uint(240 + op.n(0)%17)
+		got := ts.tab.VerifAppendBucketNodes(d, nil, op.n(1) == 1)
+		for _, n := range got {
+			if n == nil {
+				w.violate("C07", "nil-entry", "collecting bucket nodes at distance %d returned a nil record", d)
+			}
+		}
+		w.op("collect distance %d -> %d records", d, len(got))
+		w.abstract("collect %d", len(got)/4)
 		return opRet{}
 	}
 	return opRet{}
